@@ -156,6 +156,17 @@ def run(out, tier, seed):
                 # g vs g + T1: unequal, then T1 arrives (equal), then T2 arrives and T1 leaves (equal size, unequal), then T2 is swapped for T1 again
                 evs.append({"op": "eq_history", "g": g, "h": g + [T1], "og": gi, "oh": gi + 1, "relabel": perm_map(6, rng),
                             "steps": [{"how": "none", "t": T1}, {"how": a, "t": T1}, {"how": "none", "t": T1}, {"how": b, "t": T2}, {"how": rem, "t": T1}, {"how": rem, "t": T2}, {"how": a, "t": T1}]})
+        if gi % 4 == seed % 4 or not quick:
+            # the graphs handed over as read-only views over two graphs; skolemisation into graphs supplied by the caller
+            evs.append({"op": "canon", "g": g, "h": g, "og": gi, "oh": gi + 7, "relabel": perm_map(6, rng), "agg": True})
+            for v in variants(g, rng)[:2]:
+                evs.append({"op": "diff", "g": g, "h": v, "og": gi, "oh": gi + 3, "agg": True})
+            evs.append({"op": "skolem", "g": g, "og": gi, "target": "empty"})
+            evs.append({"op": "skolem", "g": g, "og": gi, "target": "nonempty", "authority": "http://example.org/data/v1"})
+            # blank node identifiers that are equal up to a character that is a delimiter in an IRI
+            for delim in ("#", "?", ";", "/", "%", "&", "="):
+                ren = lambda x: dict(x, v="row" + delim + x["v"]) if x["k"] == "bnode" else x
+                evs.append({"op": "skolem", "g": [[ren(x) for x in tr] for tr in g], "og": gi, "labels": delim})
         for e in evs:
             jobs.append({"cfg": {}, "events": [e]})
     # whether the search takes a wrong short cut depends on labels and insertion order: many relabelled copies of the hard families
